@@ -333,7 +333,7 @@ func init() {
 			"a rejection is only flagged as spurious when none of the three limits (slots, bytes, offsetter index range = maxBytes) is reached in the model",
 		},
 		Builds:      func(string) []string { return []string{"checkptr"} },
-		NumCases:    func(tier, build string) int { return vf.Tiered(tier, 3000, 900000) },
+		NumCases:    func(tier, build string) int { return vf.Tiered(tier, 10000, 900000) },
 		Floor:       func(tier string) int { return vf.Tiered(tier, 500, 20000) },
 		CaseTimeout: 30 * time.Second,
 		Run:         runC20,
